@@ -134,6 +134,8 @@ func evalC03(c string) Result {
 		}
 		return Result{Impl: showNetErr(err), Direct: direct, Class: class}
 	case "C03.ishost":
+		_ = netutil.ValidateDomainName(s)
+		_ = netutil.ValidateSRVDomainName(s)
 		got := netutil.IsValidHostname(s)
 		direct := "ok"
 		if got != (netutil.ValidateHostname(s) == nil) {
